@@ -429,9 +429,177 @@ theorem count_walkMethods (ms : List Method) (hb : Binds m reg (walkMethods e ns
     rw [N_append, N_append, N_append, N_append, count_walkPs e reg m ns x mt.params hb.left.left.left.left,
       count_walkOT e reg m ns x mt.ret hb.left.left.left.right, count_walkOTs e reg m ns x mt.throwing hb.left.left.right,
       N_ite, ih hb.right, count_listRules_append, count_listRules_append, count_listRules_append]
-    simp only [staticConstDiags, methodTypes]
+    simp only [staticConstDiags]
     omega
 
 end walkers
+
+/-! ### the specification side and the kind rules, with multiplicities -/
+
+theorem count_declRules (se : SpecEnv) (file : String) (ns : List String) (d : Decl) (S : List SigU)
+    (hs : sigsOf d = S ++ ((topTypes d).flatMap fnNodesT).map sigOfFn)
+    (hf : ∀ n c sig pos, d ≠ .function n c sig pos) (x : Diag) :
+    (declRules se file ns d).count x
+      = (listRules se file ns (topTypes d)).count x + (S.flatMap (sigRules se file ns)).count x
+          + (kindRules se file ns d).count x := by
+  rw [declRules_eq, hs, fnFlagsOf_eq d hf]
+  unfold listRules nodeRules
+  simp only [List.count_append, List.flatMap_append]
+  omega
+
+theorem flatMap_ite_eq {α β : Type} (l : List α) (p : α → Bool) (g : α → β) :
+    l.flatMap (fun a => if p a then [g a] else []) = (l.filter p).map g := by
+  induction l with
+  | nil => rfl
+  | cons a l ih =>
+    simp only [List.flatMap_cons, List.filter_cons, ih]
+    cases h : p a <;> simp
+
+theorem fnFieldDiags_eq (e : Env) (fields : List Field) :
+    fnFieldDiags e fields = (fields.filter (fun f => isFn f.ty)).map (fun f => mk "ParsingException" "fn-field" e.file (posOf f.ty)) :=
+  flatMap_ite_eq fields (fun f => isFn f.ty) (fun f => mk "ParsingException" "fn-field" e.file (posOf f.ty))
+
+theorem staticConstDiags_eq (e : Env) (ms : List Method) :
+    staticConstDiags e ms = (ms.filter (fun m => m.isStatic && m.isConst)).map (fun m => mk "ParsingException" "static-const" e.file m.pos) :=
+  flatMap_ite_eq ms (fun m => m.isStatic && m.isConst) (fun m => mk "ParsingException" "static-const" e.file m.pos)
+
+theorem flagModDiags_eq_filter (e : Env) (items : List FlagItem) (P : FlagItem → Bool)
+    (hP : ∀ i, P i = (match i.modifier with | some m => !(m == "all" || m == "none") | none => false)) :
+    flagModDiags e items = (items.filter P).map (fun i => mk "ParsingException" "flag-modifier" e.file i.modifierPos) := by
+  induction items with
+  | nil => rfl
+  | cons i is ih =>
+    simp only [flagModDiags, List.filter_cons, hP, ih]
+    cases i.modifier with
+    | none => rfl
+    | some mo => cases hb : (mo == "all" || mo == "none") <;> simp [hb, mk]
+
+theorem derivingDiags_eq_filter (e : Env) (l : List (String × Pos)) :
+    derivingDiags e l = (l.filter (fun y => !(y.1 == "eq" || y.1 == "ord"))).map (fun y => mk "ParsingException" "deriving" e.file y.2) := by
+  induction l with
+  | nil => rfl
+  | cons y l ih =>
+    obtain ⟨d, p⟩ := y
+    simp only [derivingDiags, List.filter_cons, ih]
+    cases hb : (d == "eq" || d == "ord") <;> simp [mk]
+
+theorem staticDiags_eq (e : Env) (cppOnly : Bool) (ms : List Method) :
+    staticDiags e cppOnly ms
+      = (if cppOnly then [] else (ms.filter (·.isStatic)).map (fun m => mk "ParsingException" "static-cpp" e.file m.pos)) := by
+  induction ms with
+  | nil => cases cppOnly <;> rfl
+  | cons mt ms ih =>
+    simp only [staticDiags, ih]
+    cases cppOnly <;> cases h : mt.isStatic <;> simp [h, mk]
+
+theorem count_flatMap_congr {α : Type} (l : List α) (f g : α → List Diag) (x : Diag)
+    (h : ∀ a ∈ l, (f a).count x = (g a).count x) : (l.flatMap f).count x = (l.flatMap g).count x := by
+  induction l with
+  | nil => rfl
+  | cons a l ih =>
+    simp only [List.flatMap_cons, List.count_append]
+    rw [h a (List.mem_cons_self ..), ih (fun b hb => h b (List.mem_cons_of_mem _ hb))]
+
+/-- function / interface / error as record field type, collections under `ord`: the post-check goes field by field,
+    the specification rule by rule -/
+theorem count_checkFields (se : SpecEnv) (m : Resolved) (file : String) (ns : List String) (ord : Bool)
+    (fields : List Field) (hag : ∀ f ∈ fields, primOf m file f.ty = specPrim se ns f.ty) (x : Diag) :
+    (checkFields m file ord (fields.map (fun f => (f.pos, f.ty)))).count x
+      = ((fields.filter (fun f => specPrim se ns f.ty == some .error)).map (fun f => mk "ParsingException" "field-error" file (posOf f.ty))).count x
+        + ((fields.filter (fun f => specPrim se ns f.ty == some .interface)).map (fun f => mk "ParsingException" "field-interface" file (posOf f.ty))).count x
+        + (if ord then (fields.filter (fun f => specPrim se ns f.ty == some .collection)).map (fun f => mk "ParsingException" "ord-collection" file f.pos) else []).count x := by
+  induction fields with
+  | nil => cases ord <;> simp [checkFields]
+  | cons f fs ih =>
+    have ha := hag f (List.mem_cons_self ..)
+    have ih' := ih (fun g hg => hag g (List.mem_cons_of_mem _ hg))
+    simp only [List.map_cons, checkFields, ha, List.count_append]
+    rw [ih']
+    cases hsp : specPrim se ns f.ty with
+    | none => cases ord <;> simp [hsp] <;> omega
+    | some q => cases q <;> cases ord <;> simp [hsp, pdiag, mk, List.count_cons] <;> omega
+
+/-! ### per declaration, with multiplicities -/
+
+/-- the deriving diagnostics of a record, as the visitor produces them -/
+def derDiags (e : Env) (der : Option (List (String × Pos))) : List Diag :=
+  match der with | some l => derivingDiags e l | none => []
+
+theorem derDiags_eq (e : Env) (der : Option (List (String × Pos))) :
+    derDiags e der
+      = ((der.getD []).filter (fun y => !(y.1 == "eq" || y.1 == "ord"))).map (fun y => mk "ParsingException" "deriving" e.file y.2) := by
+  cases der with
+  | none => rfl
+  | some l => exact derivingDiags_eq_filter e l
+
+theorem walkDecl_record_eq (e : Env) (ns : List String) (n : String) (c : List String) (fl : List String) (fp : Pos)
+    (fields : List Field) (der : Option (List (String × Pos))) (pos : Pos) :
+    walkDecl e ns (.record n c fl fp fields der pos)
+      = walkFields e ns fields ++ { diags := derDiags e der ++ targetDiags e fl fp }
+          ++ reg1 e ns n .record pos (.record (fields.map (fun f => (f.pos, f.ty))) ((derivingOf e der).contains "ord")) := by
+  cases der <;> rfl
+
+theorem unitDiags_other (m : Resolved) (file : String) (ns : List String) :
+    unitDiags m { file := file, ns := ns, unit := .other } = [] := rfl
+
+section kinds
+variable (e : Env) (reg : Registry) (m : Resolved) (ns : List String) (x : Diag)
+
+theorem count_enum (n : String) (c : List String) (items : List Item) (pos : Pos) :
+    N m reg x (walkDecl e ns (.enum n c items pos))
+      = (declRules (specEnvOf e reg) e.file ns (.enum n c items pos)).count x := by
+  rw [count_declRules _ _ _ _ [] rfl (by intro _ _ _ _ h; cases h)]
+  simp only [walkDecl]
+  rw [N_reg1, unitDiags_other]
+  simp [topTypes, kindRules, count_listRules_nil]
+
+theorem count_flags (n : String) (c : List String) (items : List FlagItem) (pos : Pos) :
+    N m reg x (walkDecl e ns (.flags n c items pos))
+      = (declRules (specEnvOf e reg) e.file ns (.flags n c items pos)).count x := by
+  rw [count_declRules _ _ _ _ [] rfl (by intro _ _ _ _ h; cases h)]
+  simp only [walkDecl]
+  rw [N_append, N_diagsOnly, N_reg1, unitDiags_other]
+  simp only [topTypes, kindRules, count_listRules_nil, List.flatMap_nil, List.count_nil, Nat.add_zero, Nat.zero_add]
+  exact congrArg _ (flagModDiags_eq_filter e items _ (fun i => rfl))
+
+theorem count_function (n : String) (c : List String) (sig : FnSig) (pos : Pos)
+    (hb : Binds m reg (walkDecl e ns (.function n c sig pos)).refs) :
+    N m reg x (walkDecl e ns (.function n c sig pos))
+      = (declRules (specEnvOf e reg) e.file ns (.function n c sig pos)).count x := by
+  rw [declRules_function, typeRules_eq_nodeRules]
+  simp only [dataNodesT, fnNodesT]
+  exact count_walkF' e reg m ns x sig hb
+
+theorem count_error (n : String) (c : List String) (codes : List ErrCode) (pos : Pos)
+    (hb : Binds m reg (walkDecl e ns (.error n c codes pos)).refs) :
+    N m reg x (walkDecl e ns (.error n c codes pos))
+      = (declRules (specEnvOf e reg) e.file ns (.error n c codes pos)).count x := by
+  have hb' : Binds m reg (walkCodes e ns codes).refs := fun r hr => hb r (by
+    simp only [walkDecl, Collected.refs_append, List.mem_append]; exact Or.inl hr)
+  rw [count_declRules _ _ _ _ [] rfl (by intro _ _ _ _ h; cases h)]
+  simp only [walkDecl]
+  rw [N_append, count_walkCodes e reg m ns x codes hb', N_reg1, unitDiags_other]
+  simp [topTypes, kindRules]
+
+theorem count_record (n : String) (c : List String) (fl : List String) (fp : Pos) (fields : List Field)
+    (der : Option (List (String × Pos))) (pos : Pos)
+    (hb : Binds m reg (walkDecl e ns (.record n c fl fp fields der pos)).refs) :
+    N m reg x (walkDecl e ns (.record n c fl fp fields der pos))
+      = (declRules (specEnvOf e reg) e.file ns (.record n c fl fp fields der pos)).count x := by
+  have hc := covers_walkFields e ns fields
+  have hb' : Binds m reg (walkFields e ns fields).refs := fun r hr => hb r (by
+    simp only [walkDecl, Collected.refs_append, List.mem_append]; exact Or.inl (Or.inl hr))
+  have hag : ∀ f ∈ fields, primOf m e.file f.ty = specPrim (specEnvOf e reg) ns f.ty := fun f hf =>
+    hc.primOf_eq reg m hb' f.ty (List.mem_map.mpr ⟨f, hf, rfl⟩)
+  rw [count_declRules _ _ _ _ [] rfl (by intro _ _ _ _ h; cases h), walkDecl_record_eq]
+  rw [N_append, N_append, count_walkFields e reg m ns x fields hb', N_diagsOnly, N_reg1]
+  have hu : unitDiags m ⟨e.file, ns, .record (fields.map (fun f => (f.pos, f.ty))) ((derivingOf e der).contains "ord")⟩
+      = checkFields m e.file ((derivingOf e der).contains "ord") (fields.map (fun f => (f.pos, f.ty))) := rfl
+  rw [hu, derivingOf_contains_ord, count_checkFields (specEnvOf e reg) m e.file ns _ fields hag,
+    fnFieldDiags_eq, derDiags_eq, targetDiags_eq_unknownTargets e reg]
+  simp only [topTypes, kindRules, List.count_append, List.flatMap_nil, List.count_nil]
+  omega
+
+end kinds
 
 end Pydjinni.Front
